@@ -18,6 +18,7 @@ import hashlib
 import json
 import os
 import shutil
+import signal
 import sys
 import time
 import traceback
@@ -88,17 +89,68 @@ def _write_replay(prop, case, res):
     return d
 
 
+class CaseCpuBound(BaseException):
+    """raised inside a worker by the CPU-time watchdog (BaseException: the code under test has `except Exception` clauses)"""
+
+
+TICK_S = 10.0               # CPU seconds of the worker itself (children have their own RLIMIT_CPU) between two looks at the stack
+CALL_TICKS = 3              # one single call into the repository's code on the stack for this many consecutive looks: it does not terminate
+CASE_CPU_S = 3600.0         # a case whose own evaluation burns this much CPU is given up as inconclusive (harness cost, not a verdict)
+_wd = {"frame": None, "ticks": 0, "cpu": 0.0}
+
+
+def _watchdog(sig, frame):
+    """functions called in-process (checksum, packet-number, frame-parser, suite-table checks) have no process boundary that could bound them: a loop that
+    never ends inside the repository's code must become a verdict with a stack, not a check that hangs"""
+    _wd["cpu"] += TICK_S
+    entry = None
+    f = frame
+    while f is not None:
+        if f.f_code.co_filename.startswith(runner.REPO + os.sep):
+            entry = f                   # outermost frame of the repository's code = the call the harness made
+        f = f.f_back
+    if entry is not None and entry is _wd["frame"]:
+        _wd["ticks"] += 1
+    else:
+        _wd["frame"], _wd["ticks"] = entry, 1 if entry is not None else 0
+    if entry is not None and _wd["ticks"] >= CALL_TICKS:
+        inner = "".join(traceback.format_stack(frame)[-6:])
+        raise CaseCpuBound(f"TLEXPORT: a single call of {entry.f_code.co_name} ({os.path.basename(entry.f_code.co_filename)}) has been running for "
+                           f"{_wd['ticks'] * TICK_S:.0f} s of CPU time: non-termination; stack:\n{inner}")
+    if _wd["cpu"] >= CASE_CPU_S:
+        raise CaseCpuBound(f"HARNESS: the evaluation of this case used {_wd['cpu']:.0f} s of CPU time in the worker itself")
+
+
+def _bounded(evalfn, case):
+    _wd.update(frame=None, ticks=0, cpu=0.0)
+    signal.signal(signal.SIGPROF, _watchdog)
+    signal.setitimer(signal.ITIMER_PROF, TICK_S, TICK_S)
+    try:
+        return evalfn(case)
+    finally:
+        signal.setitimer(signal.ITIMER_PROF, 0, 0)
+        _wd["frame"] = None
+
+
 def _worker(prop, w, n, cases, evalfn, outpath, budget_s):
     t0 = time.time()
     kept = 0
+    hung = None
     with open(outpath, "w") as out:
         for i in range(w, len(cases), n):
             case = cases[i]
-            if budget_s and time.time() - t0 > budget_s:
+            if hung or (budget_s and time.time() - t0 > budget_s):
                 out.write(json.dumps({"i": i, "id": case["id"], "v": "skipped"}) + "\n")
                 continue
             try:
-                res = evalfn(case)
+                res = _bounded(evalfn, case)
+            except CaseCpuBound as e:
+                msg = str(e)
+                if msg.startswith("TLEXPORT"):
+                    hung = msg          # the remaining cases of this worker would hang the same way: they are skipped, the violation is reported
+                    res = {"v": "violated", "msg": msg[10:], "cls": ["non-termination"], "sample": case}
+                else:
+                    res = {"v": "inconclusive", "msg": msg[9:], "cls": ["harness-cpu"], "nontrivial": False}
             except Exception:
                 res = {"v": "inconclusive", "msg": "harness exception: " + traceback.format_exc()[-1500:], "cls": ["harness-error"], "harness_error": True}
             rec = {"i": i, "id": case["id"], "v": res.get("v", "inconclusive"), "cls": _jsonable(res.get("cls", [])),
